@@ -133,8 +133,9 @@ CLAIMED = {
         "elements observed after each part, then a full run) and validated by TLC against MapRun (TraceMapRun): each part "
         "calls precisely its selection, nothing twice, stored = what the model says (PartExact), the final run makes no "
         "call and returns/reloads the whole denotation; invalid requests are rejected before any call.",
-   note="create_learners / adaptive learners are not driven in this round (the fixed_indices half of the property is "
-        "covered). Sequential execution; axis size 3; stored observed independently of pipefunc.",
+   note="create_learners (plain and split_independent_axes) is driven element by element through the SequenceLearner functions "
+        "(MapRun.LearnersDone); adaptive runners / SLURM are not used. The partial-run histories also go through real thread "
+        "and process pools on every storage. Axis size 3; stored observed independently of pipefunc.",
    technique="TLA+ selection semantics + run history model; TLC-enumerated partitions replayed; TLC trace validation"),
  "C13": dict(
    category="model_checking", design_ref="6 C13",
@@ -209,7 +210,7 @@ CLAIMED = {
         "SharedMemoryDictArray (and any registered class) with all observers logged after every mutator; TLC validates the "
         "histories (TraceStorage.tla). Random longer histories on larger shapes are added; a NumPy masked reference "
         "cross-checks the spec (disagreement = exit 2); backends are compared directly too.",
-   note="Don't-cares: geometries with no external axis, linear indices out of range, exception class of get_from_index on "
+   note="Every one of the 2^rank masks is in the universe (also arrays without external axes). Don't-cares: linear indices out of range, exception class of get_from_index on "
         "unwritten, MaskedArray vs masked constants, non-tuple keys / step 0.",
    technique="TLA+ masked-array model checked by TLC; exported op sequences replayed on every backend; TLC trace validation"),
  "C09": dict(
@@ -225,8 +226,10 @@ CLAIMED = {
    note="Map side: MapRun.tla models cache hits (Hits/Memo/Avail: an invocation may be answered from the cache iff an equal-"
         "kwargs invocation of the same function completed before, in this or an earlier run with the same cache); pipelines "
         "with simple/lru/hybrid/disk caches are mapped twice over inputs with repeated values, sequentially and through a "
-        "thread pool with a shared cache, and TLC validates the histories (TraceMapRun). Not covered: resources in the map "
-        "cache key; the check-then-get idiom of _get_or_set_cache under eviction (design finding F25, CacheConc "
+        "thread pool with a shared cache, and TLC validates the histories (TraceMapRun); functions whose result depends on "
+        "callable map-scoped resources are run with different inputs sharing element values (MapRun.BeginWith: the evaluated "
+        "resources belong to the key), and map -> Pipeline.replace -> map histories (MapRun.Replace) for every cache-flag "
+        "combination. Not covered: the check-then-get idiom of _get_or_set_cache under eviction (design finding F25, CacheConc "
         "NoNoneServed). Eviction is not modelled; it only limits when the no-re-execution obligation applies.",
    technique="TLA+ cache-coherence model checked by TLC; twin-pipeline histories validated by TLC"),
  "C18": dict(
